@@ -147,3 +147,63 @@ Proof.
   destruct (Z.compare_spec (m_node (snd x)) (m_node (snd y))) as [E3|E3|E3];
   destruct (Z.compare_spec (m_node (snd y)) (m_node (snd x))) as [F3|F3|F3]; try lia; auto.
 Qed.
+
+(* ---- canonical individual order (tsk_table_sorter_sort_individuals_canonical, 7353-7450) ---- *)
+Lemma individual_canonical_le_total nd fn x y :
+  individual_canonical_le nd fn x y = true \/ individual_canonical_le nd fn y x = true.
+Proof.
+  unfold individual_canonical_le.
+  destruct (Z.compare_spec (nd (fst y)) (nd (fst x))) as [E1|E1|E1];
+  destruct (Z.compare_spec (nd (fst x)) (nd (fst y))) as [F1|F1|F1]; try lia; auto.
+  destruct (Z.compare_spec (fn (fst x)) (fn (fst y))) as [E2|E2|E2];
+  destruct (Z.compare_spec (fn (fst y)) (fn (fst x))) as [F2|F2|F2]; try lia; auto.
+Qed.
+
+(* individuals come out in the order of cmp_individual_canonical (number of descendants
+   descending, first referring node, id); parents and the individual column of the nodes are
+   renumbered by a map that sends an old id to the output row made from it *)
+Theorem sort_individuals_canonical_remap : forall ns inds ns' inds',
+  sort_individuals_canonical ns inds = Ok (ns', inds') ->
+  exists ndesc sorted,
+    individual_num_descendants inds = Ok ndesc /\
+    Permutation sorted (index_from 0 inds) /\
+    Sorted (fun a b => individual_canonical_le ndesc (first_nodes ns) a b = true) sorted /\
+    let idmap := positions_from 0 sorted mnull in
+    inds' = map (fun ir => mkI (i_flags (snd ir)) (i_loc (snd ir))
+                               (map (remap_ref idmap) (i_parents (snd ir))) (i_md (snd ir))) sorted /\
+    ns' = map (fun nd => mkN (n_flags nd) (n_time nd) (n_pop nd) (remap_ref idmap (n_ind nd)) (n_md nd)) ns /\
+    (forall p r, getz inds p = Ok r -> getz sorted (idmap p) = Ok (p, r)).
+Proof.
+  intros ns inds ns' inds' H. unfold sort_individuals_canonical in H.
+  destruct (individual_num_descendants inds) as [ndesc| | |]; cbn [bind] in H; try discriminate.
+  set (sorted := isort (individual_canonical_le ndesc (first_nodes ns)) (index_from 0 inds)) in *.
+  destruct (mfold _ sorted []) as [i2| | |] eqn:E1; cbn [bind] in H; try discriminate.
+  destruct (mfold _ ns []) as [n2| | |] eqn:E2; cbn [bind] in H; try discriminate.
+  inversion H; subst ns' inds'; clear H.
+  exists ndesc, sorted. split; [reflexivity|]. split; [apply isort_perm|].
+  split; [apply isort_sorted, individual_canonical_le_total|]. cbn zeta.
+  set (idmap := positions_from 0 sorted mnull) in *.
+  split; [|split].
+  - match type of E1 with mfold ?g _ _ = _ =>
+      apply (mfold_snoc g (fun ir : Z * individual =>
+               do ps <- mfold (fun a p => do p' <- (if p =? NULL then Ok NULL else mget idmap (zlen inds) p);
+                                          Ok (a ++ [p'])) (i_parents (snd ir)) [];
+               Ok (mkI (i_flags (snd ir)) (i_loc (snd ir)) ps (i_md (snd ir))))) in E1 as [ys [-> F]] end.
+    2:{ intros acc x. destruct (mfold _ (i_parents (snd x)) []); reflexivity. }
+    cbn [app]. clearbody idmap. clear - F. induction F as [|ir y l l' Hy _ IH]; cbn [map]; auto. rewrite IH. f_equal.
+    destruct (mfold _ (i_parents (snd ir)) []) as [ps| | |] eqn:Ep; cbn [bind] in Hy; try discriminate.
+    injection Hy as <-. f_equal.
+    apply (mfold_snoc _ (fun p => if p =? NULL then Ok NULL else mget idmap (zlen inds) p)) in Ep as [zs [-> Fp]].
+    2:{ intros acc p. destruct (if p =? NULL then _ else _); reflexivity. }
+    cbn [app]. clear - Fp. induction Fp as [|p z l l' Hz _ IHp]; cbn [map]; auto. rewrite IHp. f_equal.
+    unfold remap_ref. destruct (p =? NULL). { now injection Hz as <-. }
+    unfold mget in Hz. destruct (in_range (zlen inds) p); [now injection Hz as <-|discriminate].
+  - match type of E2 with mfold ?g _ _ = _ =>
+      apply (mfold_snoc g (fun nd => do i <- (if n_ind nd =? NULL then Ok NULL else mget idmap (zlen inds) (n_ind nd));
+                                     Ok (mkN (n_flags nd) (n_time nd) (n_pop nd) i (n_md nd)))) in E2 as [ys [-> F]] end.
+    2:{ intros acc x. destruct (if n_ind x =? NULL then _ else _); reflexivity. }
+    cbn [app]. clearbody idmap. clear - F. induction F as [|nd y l l' Hy _ IH]; cbn [map]; auto. rewrite IH. f_equal.
+    unfold remap_ref. destruct (n_ind nd =? NULL). { cbn [bind] in Hy. now injection Hy as <-. }
+    unfold mget in Hy. destruct (in_range (zlen inds) (n_ind nd)); cbn [bind] in Hy; [now injection Hy as <-|discriminate].
+  - intros p r G. apply sorted_id_map. exact G.
+Qed.
